@@ -1183,6 +1183,41 @@ pub fn case_shift(ctx: &mut Ctx, case: &Value) {
     }
 }
 
+/// C10 at the command line: a Gambit chance infoset (whatever its number, 0 included) met at two
+/// nodes in one pass follows ONE draw.  Player one picks `a` or `b`; behind each sits a coin of the
+/// same chance infoset, `a` wins on heads, `b` on tails.  With a shared draw exactly one of the two
+/// wins in a pass, so after two chance-sampled iterations the average strategy is {3/4, 1/4} one
+/// way or the other whatever was drawn; with separate draws it is {1/2, 1/2} half of the time.
+pub fn shared_coin(ctx: &mut Ctx) {
+    for infoset in [0u32, 1, 7] {
+        let text = format!(
+            "EFG 2 R \"coin\" {{ \"one\" \"two\" }}\np \"\" 1 1 \"pick\" {{ \"a\" \"b\" }} 0\nc \"\" {i} \"coin\" {{ \"H\" 1/2 \"T\" 1/2 }} 0\nt \"\" 1 \"win\" {{ 1 -1 }}\nt \"\" 2 \"lose\" {{ 0 0 }}\nc \"\" {i} \"coin\" {{ \"H\" 1/2 \"T\" 1/2 }} 0\nt \"\" 2 \"lose\" {{ 0 0 }}\nt \"\" 1 \"win\" {{ 1 -1 }}\n",
+            i = infoset
+        );
+        for threads in ["1", "2"] {
+            for rep in 0..24 {
+                let args: Vec<String> = ["--input-format", "gambit", "-m", "sampled", "-d", "vanilla", "-t", "2", "-p", threads].iter().map(|x| x.to_string()).collect();
+                let run = run_cfr(ctx, &args, Some(&text));
+                ctx.stat("shared_coin_runs");
+                let case = json!({"op": "cli-shared-coin", "infoset": infoset, "threads": threads, "rep": rep, "input": text});
+                let v: Value = match (run.status, serde_json::from_str(&run.stdout)) {
+                    (Some(0), Ok(v)) => v,
+                    (st, _) => {
+                        ctx.fail_prop(&case, format!("a valid Gambit file was not solved: exit status {:?}", st));
+                        return;
+                    }
+                };
+                let pa = v["player_one_strategy"]["pick"]["a"].as_f64().unwrap_or(0.0);
+                let pb = v["player_one_strategy"]["pick"]["b"].as_f64().unwrap_or(0.0);
+                if !((pa.max(pb) - 0.75).abs() < 1e-9 && (pa.min(pb) - 0.25).abs() < 1e-9) {
+                    ctx.fail_prop(&case, format!("chance infoset {} met at two nodes ({} thread(s), run {}): the average strategy after two chance-sampled iterations is ({}, {}), which a shared draw cannot produce", infoset, threads, rep, pa, pb));
+                    return;
+                }
+            }
+        }
+    }
+}
+
 fn twin_output(ctx: &mut Ctx, case: &Value) -> Option<[Named; 2]> {
     let (t, nseed) = case_ng(case);
     let mut nrng = Rng::new(nseed);
